@@ -304,7 +304,7 @@ Qed.
 Definition hyp_umount1 (c : cfgT) (f : fsT) (m : lmap) (n : bytes) : bool :=
   dirs_noslash c && base_set_up c f && check_inheritance m
   && match lm_get m n with
-     | Some x => negb (l_state x =? st_error) && negb (beq n [])
+     | Some x => negb (l_state x =? st_error)
      | None => true
      end.
 
@@ -337,9 +337,9 @@ Proof.
   { unfold view_of_model. destruct (run _ _ _ _ _). auto. }
   destruct Ev as (E1 & E2 & E3). rewrite E1, E2, E3, He. cbn [negb]. fold m. fold tab.
   destruct (lm_get m n) as [x|] eqn:Ex; [|destruct n; reflexivity].
-  apply andb_true_iff in Hx as [Hxe Hnn]. apply negb_true_iff, N.eqb_neq in Hxe. apply negb_true_iff, beq_false in Hnn.
-  destruct n as [|a r]; [congruence|].
+  rename Hx into Hxe. apply negb_true_iff, N.eqb_neq in Hxe.
   destruct (lm_get_name _ _ _ Ex) as [Hxn Hxin].
+  destruct n as [|a r]; [exfalso; exact (layer_name_nonempty c (wo_fs w) x Hxin Hxn)|].
   destruct (forall2_get _ _ _ _ _ HF (known_name c tab um) Ex) as (l & Hgl & (Hs & Ho & _ & Hne)).
   destruct (Hne Hxe) as (K1 & K2 & K3). rewrite Hxn in K2.
   destruct (ku_seq (wo_ks w) (rev (l_kmounts l))) as [[ok ks'] iss] eqn:Eku.
